@@ -116,8 +116,12 @@ class Checker(object):
                     self.v("two_values_at_one_point:%s" % kind,
                            "a %s function holds two different value expressions at one point after %s" % (kind, after_call))
                     break
-            # I2 differentiable: one gradient per point
-            if F.reuse_gradient:
+            # I2 differentiable (as DECLARED by the user, not as the object remembers it): one gradient per point
+            declared = DECLARED_DIFF.get(id(F), F.reuse_gradient)
+            if declared and not F.reuse_gradient:
+                self.v("declared_differentiability_ignored:%s" % type(F).__name__,
+                       "%s was declared with reuse_gradient=True but the object has reuse_gradient=False" % type(F).__name__)
+            if declared:
                 for t in gr[1:]:
                     if not close(gr[0][1], t[1]):
                         self.v("two_gradients_at_one_point_differentiable:%s" % kind,
@@ -163,6 +167,9 @@ class Checker(object):
                            % (after_call, len(terms)))
 
 
+DECLARED_DIFF = {}
+KEEP = []
+
 # ---- workload ----------------------------------------------------------------------------------------------
 DIFF = ["SmoothConvexFunction", "SmoothStronglyConvexFunction", "SmoothFunction", "LipschitzOperator", "CocoerciveOperator"]
 NONDIFF = ["ConvexFunction", "ConvexLipschitzFunction", "StronglyConvexFunction", "MonotoneOperator",
@@ -179,7 +186,11 @@ def build_functions(rng, pep):
         kw = {}
         if cls in NONDIFF and rng.random() < 0.25:
             kw["reuse_gradient"] = True
-        leaves.append(pep.declare_function(get_class(cls), **params, **kw))
+        fobj = pep.declare_function(get_class(cls), **params, **kw)
+        # what the USER declared (an inherently differentiable class, or the documented reuse_gradient option)
+        DECLARED_DIFF[id(fobj)] = (cls in DIFF) or bool(kw.get("reuse_gradient"))
+        KEEP.append(fobj)
+        leaves.append(fobj)
     comps = []
     shapes = []
     ncomp = rng.randint(0, 3) if nleaf > 1 else rng.randint(0, 1)
